@@ -17,6 +17,19 @@ pub(crate) const INDEX_ENTRY_SIZE: u64 = 12;
 /// File id alias
 pub type FileId = u32;
 
+/// verif hook: called at the named points of the append / sync / truncate sequence (before the
+/// data write, between the data write and the index write, before and after the fsync), so that
+/// a harness can kill the process exactly there.
+#[cfg(feature = "verif-hooks")]
+pub static VERIF_POINT: std::sync::OnceLock<fn(&'static str)> = std::sync::OnceLock::new();
+
+#[cfg(feature = "verif-hooks")]
+fn verif_point(kind: &'static str) {
+    if let Some(f) = VERIF_POINT.get() {
+        f(kind)
+    }
+}
+
 /// verif hook: when non-zero, overrides the data-file size limit of every builder created
 /// afterwards, so that `Freezer::open` reaches file roll-overs with small items.
 #[cfg(feature = "verif-hooks")]
@@ -172,7 +185,11 @@ impl FreezerFiles {
             self.head = Head::new(new_head_file, 0);
         }
 
+        #[cfg(feature = "verif-hooks")]
+        verif_point("freezer-append-before-data");
         self.head.write(data)?;
+        #[cfg(feature = "verif-hooks")]
+        verif_point("freezer-append-between-data-and-index");
         self.write_index(self.head_id, self.head.bytes)?;
         self.number.fetch_add(1, Ordering::SeqCst);
 
@@ -186,6 +203,8 @@ impl FreezerFiles {
 
     /// Attempts to sync all OS-internal metadata to disk.
     pub fn sync_all(&self) -> Result<(), IoError> {
+        #[cfg(feature = "verif-hooks")]
+        verif_point("freezer-before-sync");
         self.head.file.sync_all()?;
         self.index.sync_all()?;
         Ok(())
